@@ -9,25 +9,25 @@ VERIF = os.path.dirname(os.path.dirname(os.path.abspath(__file__)))
 TRUST = "rustc nightly's HIR/typeck/MIR construction and constant evaluation (the extractor only serialises them); the Python rule engine; the hand-reviewed oracle tables under /verif/tables; "
 
 P = {
- "C01": dict(level="other", design="DESIGN.md 4 C01", technique="static analysis: encoder/decoder table agreement over resolved HIR (R-TAGMAP, R-LAYOUT, R-LENPREFIX, R-TAGBODY, R-BRACKET, R-CAST, R-FRAME) + drop-flag path analysis on elaborated MIR (R-LINEAR); parser-side reject census (R-REJECT), 256-value dispatch partition (R-DISPATCH) and emission order (R-ORDERLIST / R-GROUPS) as sibling clauses; nesting-limit placement (R-DEPTH); token framing of the front ends (R-TOKEN); no panic in the parser's trace formatting",
+ "C01": dict(level="other", design="DESIGN.md 4 C01", technique="static analysis: encoder/decoder table agreement over resolved HIR (R-TAGMAP, R-LAYOUT, R-LENPREFIX, R-TAGBODY, R-BRACKET, R-CAST, R-FRAME) + drop-flag path analysis on elaborated MIR (R-LINEAR); parser-side reject census (R-REJECT), 256-value dispatch partition (R-DISPATCH) and emission order (R-ORDERLIST / R-GROUPS) as sibling clauses; nesting-limit placement (R-DEPTH); token framing of the front ends (R-TOKEN); no panic in the parser's trace formatting; R-BE, R-LOSSY, R-READEXACT, R-PROPAGATE, container clauses of C19, parser never calls add()",
              text="Structural necessary conditions of round-trip equality, decided on every run from the type-checked program: kind->tag->kind identity, per-kind field order/width/length-prefix symmetry between IppValue::to_bytes and IppValue::parse, tag/body pairing in sets and collections, injective casts, header/attribute framing symmetry, and no silently dropped value in the parser state machine. Not a proof of round-trip equality over the unbounded recursive value type (that needs execution). Also: every rejection in the decoder is one of the reviewed ones, every group is emitted, the header constructor stores its arguments.",
              note=TRUST + "bytes::Buf/BufMut contracts. Not decided: full round-trip equality for all messages."),
- "C02": dict(level="other", design="DESIGN.md 4 C02", technique="static analysis: buffer lower-bound dataflow over MIR against a panic-precondition table (R-GUARD), loop progress classification (R-LOOP), call-graph acyclicity (R-NOREC), constant nesting bound (R-DEPTH), 256-value dispatch partition (R-DISPATCH); staleness-tracked length observations, text-slice character boundaries, constant pre-allocation budget per token; narrow-addition overflow; exact length guards",
+ "C02": dict(level="other", design="DESIGN.md 4 C02", technique="static analysis: buffer lower-bound dataflow over MIR against a panic-precondition table (R-GUARD), loop progress classification (R-LOOP), call-graph acyclicity (R-NOREC), constant nesting bound (R-DEPTH), 256-value dispatch partition (R-DISPATCH); staleness-tracked length observations, text-slice character boundaries, constant pre-allocation budget per token; narrow-addition overflow; exact length guards; no user Drop impl on returned types; range bounds of drain/split_at",
              text="Every panicking library call / MIR assert reachable from the parse roots is dominated by a recognised guard; the parser is iterative; every loop consumes input or iterates a finite container; nesting of the recursive value type is bounded by a constant where it grows; every tag byte is classified delimiter/value/reject.",
              note=TRUST + "T-PANIC preconditions (bytes 1.x, std). Not decided: panics inside third-party code on precondition-satisfying arguments; allocator failure."),
- "C03": dict(level="other", design="DESIGN.md 4 C03", technique="static analysis: encoder wire layout per kind extracted from resolved HIR and compared with an RFC 8010 layout table and the IANA tag registry (R-TAGMAP, R-LAYOUT, R-LENPREFIX, R-TAGBODY, R-BRACKET, R-BE, R-FRAME, R-ENDTAG, R-MAPKEY); emission of every group (R-GROUPS); every set element emitted once",
+ "C03": dict(level="other", design="DESIGN.md 4 C03", technique="static analysis: encoder wire layout per kind extracted from resolved HIR and compared with an RFC 8010 layout table and the IANA tag registry (R-TAGMAP, R-LAYOUT, R-LENPREFIX, R-TAGBODY, R-BRACKET, R-BE, R-FRAME, R-ENDTAG, R-MAPKEY); emission of every group (R-GROUPS); every set element emitted once; container clauses of C19",
              text="The encoder's per-kind wire layout, tag constants, length prefixes, set/collection bracketing, big-endian only, one unconditional end tag and map-key = attribute-name are compared with external RFC tables; this sees mistakes that are symmetric inside the library. Not a decision of decoded-content equality for arbitrary messages.",
              note=TRUST + "tables/layout.json (RFC 8010 3.9), tables/registry.json. Not decided: equality of decoded content for arbitrary trees."),
- "C04": dict(level="other", design="DESIGN.md 4 C04", technique="static analysis: 256-value tag partition by constant propagation over MIR (R-DISPATCH), decoder table vs RFC layout (R-LAYOUT), lossy-text census (R-LOSSY), order-preserving container operations (R-ORDERED), drop-flag path analysis (R-LINEAR); reject census: every Err-returning condition in the reader/parser/decoder cone is a reviewed one (R-REJECT); R-GUARD text-slice clause over the parse cone (Display in trace!); nesting-limit placement (R-DEPTH); exact length guards; decoded text stored unaltered; decoder arms selected by tag and exact length only; R-TOKEN; R-PROPAGATE; R-LINEAR over every function of the parser module with ownership-closed markers",
+ "C04": dict(level="other", design="DESIGN.md 4 C04", technique="static analysis: 256-value tag partition by constant propagation over MIR (R-DISPATCH), decoder table vs RFC layout (R-LAYOUT), lossy-text census (R-LOSSY), order-preserving container operations (R-ORDERED), drop-flag path analysis (R-LINEAR); reject census: every Err-returning condition in the reader/parser/decoder cone is a reviewed one (R-REJECT); R-GUARD text-slice clause over the parse cone (Display in trace!); nesting-limit placement (R-DEPTH); exact length guards; decoded text stored unaltered; decoder arms selected by tag and exact length only; R-TOKEN; R-PROPAGATE; R-LINEAR over every function of the parser module with ownership-closed markers; R-READEXACT, R-STOP/R-ONLYEXIT, R-ERRWRAP, container clauses of C19, parser never calls add()",
              text="Tag-byte partition of the dispatch over all 256 bytes, decode table per tag vs RFC layout, lossy text conversion only, order-preserving containers, and no silent drop of a received value on a success path. No rejection beyond the reviewed wire-format ones (a cap or filter added to the reader is reported).",
              note=TRUST + "Not decided: that the pairing algorithm yields exactly the RFC reading for every tree."),
  "C05": dict(level="translation_validation", design="DESIGN.md 4 C05", technique="static analysis: sibling equality modulo await - normalised resolved-HIR tree comparison of the 18 sync/async twin pairs (R-TWIN); payload adaptor arms (R-FORWARD) as sibling clause; second judgement on path summaries when the trees differ",
              text="The 18 blocking/async sibling pairs are compared as resolved HIR trees after erasing the async lowering, `.await`, log statements and the sibling name map; both front ends must call the same state-machine DefIds and no hand-written poll exists. Any one-sided edit is reported with the path to the first difference.",
              note=TRUST + "futures_util::io::ReadExact / std read_exact schedule independence (trusted)."),
- "C06": dict(level="other", design="DESIGN.md 4 C06", technique="static analysis: who-may-call on the reader's source field (R-READEXACT), exact-size buffer flow, no reader call after the end-of-attributes edge in MIR (R-STOP); only pass-through adaptors between the HTTP response body and the parser in both clients (R-HTTPSHAPE parse-source clause); payload adaptor pass-through (R-FORWARD); R-TOKEN; R-DISPATCH; no panic in the parser's trace formatting",
+ "C06": dict(level="other", design="DESIGN.md 4 C06", technique="static analysis: who-may-call on the reader's source field (R-READEXACT), exact-size buffer flow, no reader call after the end-of-attributes edge in MIR (R-STOP); only pass-through adaptors between the HTTP response body and the parser in both clients (R-HTTPSHAPE parse-source clause); payload adaptor pass-through (R-FORWARD); R-TOKEN; R-DISPATCH; no panic in the parser's trace formatting; R-PROPAGATE, R-REJECT",
              text="Only read_exact on exactly-sized buffers touches the source; reader structs own nothing but the source; no reader call is reachable between the end-of-attributes edge and return; the source is moved out unchanged. The clients hand the whole response stream to the parser.",
              note=TRUST + "read_exact's fragmentation/Interrupted handling (std / futures-util, trusted)."),
- "C07": dict(level="other", design="DESIGN.md 4 C07", technique="static analysis: error-discipline census over resolved HIR (R-PROPAGATE), single Ok exit dominated by the end-of-attributes edge (R-ONLYEXIT), identity error wrappers (R-ERRWRAP); R-TOKEN",
+ "C07": dict(level="other", design="DESIGN.md 4 C07", technique="static analysis: error-discipline census over resolved HIR (R-PROPAGATE), single Ok exit dominated by the end-of-attributes edge (R-ONLYEXIT), identity error wrappers (R-ERRWRAP); R-TOKEN; payload bridge forwarding (R-FORWARD)",
              text="Every fallible call in the reader/parser cone is propagated; the only Ok exit is dominated by the end-of-attributes edge; From<io::Error> conversions are identity wrappers.",
              note=TRUST + "read_exact => UnexpectedEof on short input (trusted)."),
  "C08": dict(level="other", design="DESIGN.md 4 C08", technique="static analysis: structural match of into_read/into_async_read and the payload Read/AsyncRead arms over resolved HIR (R-CHAIN, R-FORWARD); impl-items census of the payload's Read/AsyncRead impls; operations attach the payload unchanged (C10's clause)",
@@ -36,34 +36,34 @@ P = {
  "C09": dict(level="other", design="DESIGN.md 4 C09", technique="static analysis: compiler-evaluated ordered-first constant vs RFC 8011 4.1.4-4.1.5 and emission-schedule shape of IppAttributes::to_bytes over resolved HIR (R-ORDERLIST, R-ENDTAG); base attributes of request and response constructors (C10's clauses)",
              text="The ordered-first name list that drives emission, as evaluated by the compiler, has charset, natural-language, then target uri(s), then job-id; the unordered (hash-map) part is filtered by exactly that list; the operation delimiter is the first byte after the header. Independent of insertion and hash order by construction.",
              note=TRUST + "HashMap::get returns the entry (trusted)."),
- "C10": dict(level="other", design="DESIGN.md 4 C10", technique="static analysis: per-operation wiring extraction from resolved HIR compared with an RFC 8011 operation table (R-OPWIRE), builder field->parameter flow and field liveness (R-BUILDERS); no in-place mutation of a wired value between setter and attribute; field types of operation structs/builders keep order and multiplicity; no reordering of the caller's lists",
+ "C10": dict(level="other", design="DESIGN.md 4 C10", technique="static analysis: per-operation wiring extraction from resolved HIR compared with an RFC 8011 operation table (R-OPWIRE), builder field->parameter flow and field liveness (R-BUILDERS); no in-place mutation of a wired value between setter and attribute; field types of operation structs/builders keep order and multiplicity; no reordering of the caller's lists; attribute constructor stores its arguments; emission clauses of C09",
              text="Per operation: operation constant, version, request-id and every (group, name, value-constructor, source field) wiring equals the table, nothing extra; builder->constructor argument flow; replace-vs-accumulate setters.",
              note=TRUST + "HashMap::insert semantics (trusted); tables/ops.json."),
- "C11": dict(level="other", design="DESIGN.md 4 C11", technique="static analysis: configuration-field liveness into the HTTP builder chain and HTTP call-shape extraction from resolved HIR under each client cfg (R-CONFIG-LIVE, R-HTTPSHAPE); who-may-write the client configuration (R-CONFIG-LIVE writers); Cargo manifest audit of the HTTP/TLS stacks' features against a reviewed table (R-CARGO); reader/parser error discipline of C07 (cut connection); parsed response is the Ok result of the send; URL-mapping clauses of C14; process-wide state census; request stream and payload bridge (C08)",
+ "C11": dict(level="other", design="DESIGN.md 4 C11", technique="static analysis: configuration-field liveness into the HTTP builder chain and HTTP call-shape extraction from resolved HIR under each client cfg (R-CONFIG-LIVE, R-HTTPSHAPE); who-may-write the client configuration (R-CONFIG-LIVE writers); Cargo manifest audit of the HTTP/TLS stacks' features against a reviewed table (R-CARGO); reader/parser error discipline of C07 (cut connection); parsed response is the Ok result of the send; URL-mapping clauses of C14; process-wide state census; request stream and payload bridge (C08); neutral builder defaults; unconditional header loop",
              text="Each client configuration field is consumed on the path to the HTTP send; POST to the mapped URL; content-type constant; body derives from into_read/into_async_read of the request; success-status edge dominates the async parse; parse errors propagate; basic-auth header shape. Everything the HTTP stacks do at run time is not decided. The stored target uri is written by the constructor only; the dependency features of ureq/reqwest/rustls equal the reviewed lists.",
              note=TRUST + "Not decided (most of the behavioural statement): framing, fragmentation, timeouts firing, concurrency, exactly one POST - run-time behaviour of reqwest/ureq."),
- "C12": dict(level="other", design="DESIGN.md 4 C12", technique="static analysis: who-may-call enumeration of TLS-weakening APIs with control/data dependence on the opt-out flag, per backend cfg (R-TLSGATE), root-certificate liveness (R-CONFIG-LIVE); Cargo manifest audit of the TLS stacks' features (R-CARGO); ca_cert setter stores the caller's bytes unchanged; census of every option set on the HTTP/TLS builders; builder stores the target as given (config-writer clause)",
+ "C12": dict(level="other", design="DESIGN.md 4 C12", technique="static analysis: who-may-call enumeration of TLS-weakening APIs with control/data dependence on the opt-out flag, per backend cfg (R-TLSGATE), root-certificate liveness (R-CONFIG-LIVE); Cargo manifest audit of the TLS stacks' features (R-CARGO); ca_cert setter stores the caller's bytes unchanged; census of every option set on the HTTP/TLS builders; builder stores the target as given (config-writer clause); PEM-before-DER decoding order; URL authority clauses of C14",
              text="Every call of a TLS danger API is control-dependent on the flag being true or data-dependent on the flag itself (no negation); the flag defaults to false; every stored root reaches the root store; the accept-all verifier is constructed at one gated site - under each backend's cfg.",
              note=TRUST + "tables/danger.json. Not decided: certificate validation inside native-tls / rustls / reqwest / ureq."),
- "C13": dict(level="other", design="DESIGN.md 4 C13", technique="static analysis: accessor-whitelist taint analysis of canonicalize_uri and of every printer-uri attribute construction over resolved HIR (R-TAINT-URI); encoder length-prefix = whole string (R-LAYOUT) so the canonical uri is sent in full",
+ "C13": dict(level="other", design="DESIGN.md 4 C13", technique="static analysis: accessor-whitelist taint analysis of canonicalize_uri and of every printer-uri attribute construction over resolved HIR (R-TAINT-URI); encoder length-prefix = whole string (R-LAYOUT) so the canonical uri is sent in full; builder target flow (C10's R-BUILDERS)",
              text="The canonical URI is built only from the constant scheme, host(), port_u16(), path(); every printer-uri attribute value in the crate flows from canonicalize_uri; one reviewed exception (builder-failure fallback).",
              note=TRUST + "Not decided: reachability of the fallback inside http::Uri::builder."),
  "C14": dict(level="other", design="DESIGN.md 4 C14", technique="static analysis: (scheme, http-scheme, default-port) table extracted from the match in ipp_uri_to_string and compared with RFC 3510/7472; branch and assembly shape (R-SCHEMETABLE); who-may-write the stored target uri; both clients map exactly the configured uri; ipputil hands the parsed command-line uri to the client unchanged; process-wide state census of the client module; the clients post to the mapped URL unmodified (C11's uri clause)",
              text="The scheme/default-port table extracted from the code equals RFC 3510/7472; explicit-port and pass-through branches; output assembled from whole authority and path-and-query. One known finding (ipps default 443) is listed by exact key. Nobody rewrites the configured target between construction and the mapping.",
              note=TRUST + "http::Uri accessors (trusted)."),
- "C15": dict(level="other", design="DESIGN.md 4 C15", technique="static analysis: census and classification of every linear-cost library call and loop in the parse cone (R-COSTSITES) with the constant nesting bound (R-DEPTH); keyed default hasher for hash containers of message types; constant pre-allocation budget; HIR loop census; crate-local iterator next() as cost site; streaming response source (C11's parse-source clause); shrink/sort calls as linear-cost sites",
+ "C15": dict(level="other", design="DESIGN.md 4 C15", technique="static analysis: census and classification of every linear-cost library call and loop in the parse cone (R-COSTSITES) with the constant nesting bound (R-DEPTH); keyed default hasher for hash containers of message types; constant pre-allocation budget; HIR loop census; crate-local iterator next() as cost site; streaming response source (C11's parse-source clause); shrink/sort calls as linear-cost sites; fold accumulators not copied; no exact reservations on growing lists; R-READEXACT buffer clauses",
              text="Every linear-cost library call and every loop in the parse cone is classified bounded / amortised-by-pop / per-token; no deep copy of accumulated values unless nesting is bounded. A screen for amplification sites, not a complexity proof.",
              note=TRUST + "tables/cost.json. Not decided: asymptotic cost in general; allocator behaviour."),
- "C16": dict(level="proof", design="DESIGN.md 4 C16", technique="static analysis: compiler-evaluated discriminants vs registry table; derived decode chains read as literal->variant tables and enumerated exhaustively over the 16-bit / 8-bit input domain; tag/body agreement of the value encoder and decoder for out-of-band kinds (R-TAGMAP, R-TAGBODY); parser tag dispatch partition (R-DISPATCH); operation id emitted per operation type (C10's op-id clause); readiness helper's success test (C17's R-READY)",
+ "C16": dict(level="proof", design="DESIGN.md 4 C16", technique="static analysis: compiler-evaluated discriminants vs registry table; derived decode chains read as literal->variant tables and enumerated exhaustively over the 16-bit / 8-bit input domain; tag/body agreement of the value encoder and decoder for out-of-band kinds (R-TAGMAP, R-TAGBODY); parser tag dispatch partition (R-DISPATCH); operation id emitted per operation type (C10's op-id clause); readiness helper's success test (C17's R-READY); reader/parser error discipline of C07",
              text="Finite-domain proof on tables extracted from the type-checked program: every discriminant equals the registry; the derived decode chain is the identity on discriminants for all 65 536 / 256 inputs; status decoding falls back to unknown; the success set contains the RFC 8011 successful codes and lies within 0x0000-0x00ff. Obligations = one per variant, per decode table, per input class; all must be discharged.",
              note=TRUST + "num-traits' provided from_u16 -> from_u64 delegation; tables/registry.json."),
  "C17": dict(level="other", design="DESIGN.md 4 C17", technique="static analysis: evaluated keyword constant vs the 10-word list and gate/polarity/shape extraction of is_printer_ready over resolved HIR (R-READY); status-code decoding and success-set clauses of C16 (R-STATUS, R-SUCCESS); container clauses of C19, serde audit of C20 where compiled, ipputil's state-query clause; parser clauses of C04",
              text="Blocking-keyword constant equals the 10-word list; status gate polarity and early Err; Stopped pattern constant; reasons scan goes through the value iterator and as_keyword; Ok(true) only as fall-through.",
              note=TRUST + "slice::contains / Iterator::any (trusted); the value iterator's behaviour is C19's clause."),
- "C18": dict(level="other", design="DESIGN.md 4 C18", technique="static analysis: cut-set reachability of the Print-Job send in the MIR CFG of do_print_job (R-PRINTGATE), FromStr typing table, CLI-field->builder wiring, error propagation to main; requested-attributes of the state query cover what the readiness helper reads; C17's rules re-run; blocking-client clauses of C11; ipputil target clause of C14; every attribute of every group reaches the wire (C09's emission clauses)",
+ "C18": dict(level="other", design="DESIGN.md 4 C18", technique="static analysis: cut-set reachability of the Print-Job send in the MIR CFG of do_print_job (R-PRINTGATE), FromStr typing table, CLI-field->builder wiring, error propagation to main; requested-attributes of the state query cover what the readiness helper reads; C17's rules re-run; blocking-client clauses of C11; ipputil target clause of C14; every attribute of every group reaches the wire (C09's emission clauses); Print-Job wiring clauses of C10",
              text="The Print-Job send is unreachable from entry once the no_check_state and is_printer_ready==true edges are removed; option typing table of FromStr; argument->builder wiring; every exchange's error and non-success status reaches main's Err. The state query asks for all attributes or at least printer-state and printer-state-reasons.",
              note=TRUST + "Not decided: bytes on the wire, exit-code mapping (std Termination), clap parsing, file I/O."),
- "C19": dict(level="other", design="DESIGN.md 4 C19", technique="static analysis: container-operation shape extraction and who-may-call on reordering operations over resolved HIR (R-CONTAINER, R-ORDERED), iterator progress on every Some path; map key = attribute name in the parser (R-MAPKEY); impl-items census of the value iterator; attribute maps changed by insert only",
+ "C19": dict(level="other", design="DESIGN.md 4 C19", technique="static analysis: container-operation shape extraction and who-may-call on reordering operations over resolved HIR (R-CONTAINER, R-ORDERED), iterator progress on every Some path; map key = attribute name in the parser (R-MAPKEY); impl-items census of the value iterator; attribute maps changed by insert only; attribute constructor stores its arguments",
              text="Only order-preserving operations touch the group list; add = first-match search, else push at end, insert keyed by own name; collection type is an ordered map; iterator progress on every Some path.",
              note=TRUST + "Not decided: exact element order of indexed access (needs linear arithmetic; one reviewed exception)."),
  "C20": dict(level="other", design="DESIGN.md 4 C20", technique="static analysis: impl-provenance and serde-attribute audit over type facts under the serde cfg, Cargo feature wiring, trait-bound compile witness (R-SERDE); parser nesting limit vs serde_json recursion limit",
